@@ -358,6 +358,10 @@ func (s *sys) Canon(i any) string {
 var universes = map[string]universe{
 	// tiny alphabet for a deep history search without state de-duplication
 	"tiny": {prefixes: []string{"/a", "/a/b"}, faces: []uint64{1, 2}, costs: []uint64{1}, strats: []string{mcName}},
+	// names whose components concatenate to the same bytes when the boundaries are forgotten: /a/b versus the
+	// single component "a" + <8-byte type 8> + "b" (what Component.HashInto feeds per component is type
+	// and value), and versus the 1-byte-type reading /a%08b
+	"ambig": {prefixes: []string{"/a", "/a/b", "/a%00%00%00%00%00%00%00%08b", "/a%08b"}, faces: []uint64{1, 2}, costs: []uint64{1}, strats: []string{mcName}},
 	"small": {prefixes: []string{"/", "/a", "/a/b", "/a/b/c"}, faces: []uint64{1}, costs: []uint64{1, 2}, strats: []string{mcName}},
 	"full":  {prefixes: []string{"/", "/a", "/a/b", "/a/b/c", "/a/b/c/d", "/a/x", "/e"}, faces: []uint64{1, 2}, costs: []uint64{1, 2}, strats: []string{brName, mcName}},
 	"deep":  {prefixes: []string{"/", "/a", "/a/b", "/a/b/c", "/a/b/c/d", "/a/b/c/d/e", "/a/b/c/d/e/f", "/a/b/c/d/e/f/g", "/a/b/x", "/a/b/c/d/e/x"}, faces: []uint64{1}, costs: []uint64{1}, strats: []string{mcName}},
@@ -389,6 +393,9 @@ func main() {
 					dd = 6
 				}
 				c = append(c, explore.Config{Name: fmt.Sprintf("deep m=%d", m), MaxDepth: dd, MaxDev: -1})
+				if m <= 2 {
+					c = append(c, explore.Config{Name: fmt.Sprintf("ambig m=%d", m), MaxDepth: d, MaxDev: -1})
+				}
 			}
 			ad := 3
 			if th {
